@@ -120,7 +120,9 @@ pub fn judge_interval(
     if ex.se == 0.0 {
         // constant sample: the interval must collapse onto the mean, up to the absolute
         // rounding error of the variance (conditioning is infinite here)
-        let cstar = if p == 0.5 { 0.0 } else if ex.dof < SWITCH { mc::oracle::t_ppf(p, ex.dof).abs() } else { mc::oracle::norm_ppf(p).abs() };
+        // (an undefined dof — both samples of an unpaired comparison constant — is bounded by
+        // the heaviest-tailed case, one degree of freedom)
+        let cstar = if p == 0.5 { 0.0 } else if ex.dof.is_nan() { mc::oracle::t_ppf(p, 1.0).abs() } else if ex.dof < SWITCH { mc::oracle::t_ppf(p, ex.dof).abs() } else { mc::oracle::norm_ppf(p).abs() };
         for (name, b) in [("low", lo), ("high", hi)] {
             let allowed = 1.01 * cstar * ex.se_abs + ex.center_tol + 2.0 * ex.u * b.abs();
             if b.is_finite() && !((b - ex.center).abs() <= allowed) {
